@@ -122,9 +122,22 @@ def proof_side(pid, ev):
         # the tie is broken for this property only if a generated file its model uses could not be regenerated
         broken = set(re.findall(r"TIE BROKEN \[([^\]]+)\]", out))
         mine = set(GENERATED_FOR.get(pid, ())) | {"Consts.lean", "*"}
-        if not broken or broken & mine:
+        if not broken or "*" in broken:
             return False, "translator", out
-        ev["coverage"]["translator_other"] = "generators of other properties failed: " + ", ".join(sorted(broken))
+        if broken & mine:
+            # The translator cannot re-read some constants from the source text (re-spelled, moved, renamed).
+            # That alone says nothing about behaviour: fall back to the last generated values (the committed
+            # Generated/*.lean, i.e. constants as part of the hand-written model) and let the correspondence,
+            # escalated to the larger budget, decide whether model and code still agree (DESIGN 12.11).
+            missing = [f for f in broken & mine if not os.path.exists(os.path.join(LEAN, "MbVerif", "Generated", f))]
+            if missing:
+                return False, "translator", out
+            ev["coverage"]["translator_fallback"] = {
+                "files_not_regenerated": sorted(broken & mine),
+                "reason": [l for l in out.split("\n") if "TIE BROKEN" in l],
+                "effect": "last generated constants kept; tie for them rests on the (escalated) correspondence of this run"}
+        else:
+            ev["coverage"]["translator_other"] = "generators of other properties failed: " + ", ".join(sorted(broken))
     mod = f"MbVerif.Props.{pid}"
     modfile = os.path.join(LEAN, "MbVerif", "Props", f"{pid}.lean")
     if not os.path.exists(modfile):
@@ -307,6 +320,8 @@ def main():
             why = []
             if changed:
                 why.append("anchored source changed: " + ", ".join(changed))
+            if ev["coverage"].get("translator_fallback"):
+                why.append("translator fallback: " + ", ".join(ev["coverage"]["translator_fallback"]["files_not_regenerated"]))
             if os.environ.get("VERIF_FORCE_ESCALATE") == "1":
                 why.append("forced (VERIF_FORCE_ESCALATE=1, used to time the second pass)")
             if proof_broken:
